@@ -4,6 +4,7 @@ import (
 	"fmt"
 	"go/ast"
 	"go/token"
+	"go/types"
 	"strings"
 )
 
@@ -545,6 +546,7 @@ func runR_C05(c *Ctx) {
 	c.Rep.analysed("deepcopy_residuals", n)
 	cloneRules(c)
 	runG9(c, "deepcopy.canCopy")
+	g9Methods(c, methodSpec{"deepcopy.hasDeepCopyMethod", "DeepCopy", 1, 0, types.Invalid})
 	c.Rep.floor("R11", 100)
 }
 
